@@ -2669,6 +2669,64 @@ let rec voffset pdims v j =
 let view_off pdims v i =
   voffset pdims v (unflat (vdims v) i)
 
+(** val upd1 : (int -> 'a1) -> int -> 'a1 -> int -> 'a1 **)
+
+let upd1 a o x p =
+  if (=) p o then x else a p
+
+(** val scatter :
+    (int -> int) -> (int -> (int -> 'a1) -> 'a1) -> int -> (int -> 'a1) ->
+    int -> 'a1 **)
+
+let scatter off f n0 a =
+  fold_left (fun a0 i -> upd1 a0 (off i) (f i a0)) (seq 0 n0) a
+
+(** val idx2 : int -> int list -> int list -> int list **)
+
+let idx2 ncols it0 it1 =
+  flat_map (fun a -> map (fun b -> add (mul a ncols) b) it1) it0
+
+(** val idx_col : int -> int list -> int -> int list **)
+
+let idx_col ncols it0 num =
+  map (fun a -> add (mul a ncols) num) it0
+
+(** val idx_row : int -> int -> int list -> int list **)
+
+let idx_row ncols num it1 =
+  map (fun b -> add (mul num ncols) b) it1
+
+(** val idx_it_range : int -> int list -> nrange -> int list **)
+
+let idx_it_range ncols it0 r =
+  idx2 ncols it0 (map (fun j -> add r.nfirst (mul j r.nstep)) (seq 0 r.nsize))
+
+(** val idx_range_it : int -> nrange -> int list -> int list **)
+
+let idx_range_it ncols r it1 =
+  idx2 ncols (map (fun i -> add r.nfirst (mul i r.nstep)) (seq 0 r.nsize)) it1
+
+(** val rv_read : (int -> 'a1) -> int list -> 'a1 list **)
+
+let rv_read =
+  map
+
+(** val rv_write :
+    ('a1 -> 'a1 -> 'a1) -> int list -> (int -> 'a1) -> (int -> 'a1) -> int ->
+    'a1 **)
+
+let rv_write op idx rhs a =
+  scatter (fun k -> nth k idx 0) (fun k b -> op (b (nth k idx 0)) (rhs k))
+    (length idx) a
+
+(** val filter_write :
+    ('a1 -> 'a1 -> 'a1) -> (int -> bool) -> (int -> 'a1) -> int -> (int ->
+    'a1) -> int -> 'a1 **)
+
+let filter_write op mask0 rhs n0 a =
+  fold_left (fun b p -> if mask0 p then upd1 b p (op (b p) (rhs p)) else b)
+    (seq 0 n0) a
+
 (** val run_matmul_Z :
     cfg -> ety -> int -> int -> int -> z list -> z list -> z list **)
 
@@ -2838,3 +2896,95 @@ let run_admissible oned d = function
       ((&&) ((&&) (Z.leb Z0 u.uf) (Z.leb u.uf u.ul))
         (Z.leb u.ul (Z.of_nat d))) (Z.leb (Zpos XH) u.us))
     (Z.ltb u.uf (Z.of_nat d))
+
+(** val rv_op : int -> z -> z -> z **)
+
+let rv_op op =
+  if (=) op (Stdlib.Int.succ (Stdlib.Int.succ (Stdlib.Int.succ
+       (Stdlib.Int.succ (Stdlib.Int.succ (Stdlib.Int.succ (Stdlib.Int.succ
+       (Stdlib.Int.succ (Stdlib.Int.succ (Stdlib.Int.succ (Stdlib.Int.succ
+       (Stdlib.Int.succ (Stdlib.Int.succ (Stdlib.Int.succ (Stdlib.Int.succ
+       (Stdlib.Int.succ (Stdlib.Int.succ (Stdlib.Int.succ (Stdlib.Int.succ
+       (Stdlib.Int.succ (Stdlib.Int.succ (Stdlib.Int.succ (Stdlib.Int.succ
+       (Stdlib.Int.succ (Stdlib.Int.succ (Stdlib.Int.succ (Stdlib.Int.succ
+       (Stdlib.Int.succ (Stdlib.Int.succ (Stdlib.Int.succ (Stdlib.Int.succ
+       (Stdlib.Int.succ (Stdlib.Int.succ (Stdlib.Int.succ (Stdlib.Int.succ
+       (Stdlib.Int.succ (Stdlib.Int.succ (Stdlib.Int.succ (Stdlib.Int.succ
+       (Stdlib.Int.succ (Stdlib.Int.succ (Stdlib.Int.succ (Stdlib.Int.succ
+       (Stdlib.Int.succ (Stdlib.Int.succ (Stdlib.Int.succ (Stdlib.Int.succ
+       (Stdlib.Int.succ (Stdlib.Int.succ (Stdlib.Int.succ (Stdlib.Int.succ
+       (Stdlib.Int.succ (Stdlib.Int.succ (Stdlib.Int.succ (Stdlib.Int.succ
+       (Stdlib.Int.succ (Stdlib.Int.succ (Stdlib.Int.succ (Stdlib.Int.succ
+       (Stdlib.Int.succ (Stdlib.Int.succ (Stdlib.Int.succ (Stdlib.Int.succ
+       (Stdlib.Int.succ (Stdlib.Int.succ (Stdlib.Int.succ (Stdlib.Int.succ
+       (Stdlib.Int.succ (Stdlib.Int.succ (Stdlib.Int.succ (Stdlib.Int.succ
+       (Stdlib.Int.succ (Stdlib.Int.succ (Stdlib.Int.succ (Stdlib.Int.succ
+       (Stdlib.Int.succ (Stdlib.Int.succ (Stdlib.Int.succ (Stdlib.Int.succ
+       (Stdlib.Int.succ (Stdlib.Int.succ (Stdlib.Int.succ (Stdlib.Int.succ
+       (Stdlib.Int.succ (Stdlib.Int.succ (Stdlib.Int.succ (Stdlib.Int.succ
+       (Stdlib.Int.succ (Stdlib.Int.succ (Stdlib.Int.succ (Stdlib.Int.succ
+       (Stdlib.Int.succ (Stdlib.Int.succ (Stdlib.Int.succ (Stdlib.Int.succ
+       (Stdlib.Int.succ (Stdlib.Int.succ (Stdlib.Int.succ (Stdlib.Int.succ
+       (Stdlib.Int.succ
+       0))))))))))))))))))))))))))))))))))))))))))))))))))))))))))))))))))))))))))))))))))))))))))))))))))))
+  then (fun _ y -> y)
+  else int_bin (Zpos (XO (XO (XO (XO (XO (XO XH))))))) op
+
+(** val run_rv_read : int list -> z list -> z list **)
+
+let run_rv_read idx a =
+  rv_read (fun p ->
+    nth p a (Zpos (XI (XO (XO (XO (XI (XO (XI (XI (XI (XI (XI (XI (XO (XI (XO
+      (XO XH)))))))))))))))))) idx
+
+(** val run_rv_write : int -> int list -> z list -> z list -> z list **)
+
+let run_rv_write op idx rhs a =
+  map
+    (rv_write (rv_op op) idx (fun k -> nth k rhs Z0) (fun p ->
+      nth p a (Zpos (XI (XO (XO (XO (XI (XO (XI (XI (XI (XI (XI (XI (XO (XI
+        (XO (XO XH)))))))))))))))))))
+    (seq 0 (add (length a) (Stdlib.Int.succ 0)))
+
+(** val run_filter_write : int -> bool list -> z list -> z list -> z list **)
+
+let run_filter_write op mask0 rhs a =
+  map
+    (filter_write (rv_op op) (fun p -> nth p mask0 false) (fun p ->
+      nth p rhs Z0) (length a) (fun p ->
+      nth p a (Zpos (XI (XO (XO (XO (XI (XO (XI (XI (XI (XI (XI (XI (XO (XI
+        (XO (XO XH)))))))))))))))))))
+    (seq 0 (add (length a) (Stdlib.Int.succ 0)))
+
+(** val run_idx2 : int -> int list -> int list -> int list **)
+
+let run_idx2 =
+  idx2
+
+(** val run_idx_col : int -> int list -> int -> int list **)
+
+let run_idx_col =
+  idx_col
+
+(** val run_idx_row : int -> int -> int list -> int list **)
+
+let run_idx_row =
+  idx_row
+
+(** val run_idx_it_range :
+    int -> int list -> int -> ((z * z) * z) -> int list **)
+
+let run_idx_it_range ncols it0 d = function
+| (p, s) ->
+  let (f, l) = p in
+  idx_it_range ncols it0
+    (to_nrange (normnd (Z.of_nat d) { uf = f; ul = l; us = s }))
+
+(** val run_idx_range_it :
+    int -> int -> ((z * z) * z) -> int list -> int list **)
+
+let run_idx_range_it ncols d r it1 =
+  let (p, s) = r in
+  let (f, l) = p in
+  idx_range_it ncols
+    (to_nrange (normnd (Z.of_nat d) { uf = f; ul = l; us = s })) it1
